@@ -51,6 +51,10 @@ val b2s : bool -> str
 
 val is_ok_status : jv -> bool
 
+val module_items : node -> node list
+
+val subseq_items : node list -> node list -> bool
+
 val extras : jv -> jv -> (str * str) list
 
 val regex_table : jv -> str -> bool
